@@ -44,6 +44,14 @@ Theorem C03_verify_foreign : forall hash prev genesis s, In s splits -> hash = s
 Proof. exact verify_foreign. Qed.
 Print Assumptions C03_verify_foreign.
 
+(* the verification request names each fork point once (C19 for the verify-only locator) *)
+Theorem C03_verify_only_locator :
+  verify_only_locator = [0x00000000000000000102d94fde9bd0807a2cc7582fe85dd6349b73ce4e8d9322;
+                         0x0000000000000000011865af4122fe3b144e2cbeea86142e8ff2fb4107352d43] /\
+  NoDup verify_only_locator.
+Proof. exact verify_only_locator_value. Qed.
+Print Assumptions C03_verify_only_locator.
+
 Example C03_example :
   split_verdict (mkSplitIn 12345 77 556767 true false true 1) = Some VWrongChain /\
   split_verdict (mkSplitIn required_after required_before 556767 true false true 1) = None /\
